@@ -1,6 +1,7 @@
 package harness
 
 import (
+	"bufio"
 	"bytes"
 	"context"
 	"errors"
@@ -98,6 +99,7 @@ func NewWorld(spec WorldSpec, seed uint64) (*World, error) {
 	simrt.SeedIDs(seed)
 	uuid.SetRand(simrt.IDRand())
 	sequence.VerifReset(spec.SeqBase)
+	simbadger.UseDefaults = spec.BadgerDefaults
 	simrt.ResetMutations()
 	return w, nil
 }
@@ -353,6 +355,59 @@ func readAllClose(rc io.ReadCloser) ([]byte, error) {
 		err = cerr
 	}
 	return b, err
+}
+
+// consumeClose reads a content reader to its end the way callers do: "" io.ReadAll; "copy"
+// io.Copy from the start (uses the reader's WriteTo if it has one); "prefix" the first n bytes
+// with io.ReadFull (a header), the rest with io.Copy; "bufio" a line-sized bufio.Reader whose
+// first n bytes are peeked and read, the rest through its WriteTo; "small" reads of 1-700 bytes.
+func consumeClose(rc io.ReadCloser, how string, n int) ([]byte, error) {
+	var (
+		out bytes.Buffer
+		err error
+	)
+	switch how {
+	case "copy":
+		_, err = io.Copy(&out, rc)
+	case "prefix":
+		head := make([]byte, n)
+		var m int
+		m, err = io.ReadFull(rc, head)
+		out.Write(head[:m])
+		if err == io.EOF || err == io.ErrUnexpectedEOF {
+			err = nil // shorter than the header
+		} else if err == nil {
+			_, err = io.Copy(&out, rc)
+		}
+	case "bufio":
+		br := bufio.NewReaderSize(rc, 64)
+		head := make([]byte, n)
+		var m int
+		m, err = io.ReadFull(br, head)
+		out.Write(head[:m])
+		if err == io.EOF || err == io.ErrUnexpectedEOF {
+			err = nil
+		} else if err == nil {
+			_, err = br.WriteTo(&out)
+		}
+	case "small":
+		buf := make([]byte, 700)
+		for k := 0; err == nil; k++ {
+			var m int
+			m, err = rc.Read(buf[:1+(k*7919+n)%700])
+			out.Write(buf[:m])
+		}
+		if err == io.EOF {
+			err = nil
+		}
+	default:
+		return readAllClose(rc)
+	}
+	cerr := rc.Close()
+	if err == nil {
+		err = cerr
+	}
+	return out.Bytes(), err
 }
 
 func backgroundCtx() context.Context { return context.Background() }
